@@ -31,9 +31,13 @@ class StmtMixin:
         hooks = self.unit.hooks_for(self)
         if not hooks or self.in_ghost:
             return
-        if isinstance(s, (ast.If, ast.For, ast.While, ast.With, ast.Try, ast.FunctionDef)):
+        if isinstance(s, (ast.For, ast.While, ast.With, ast.Try, ast.FunctionDef)):
             return
         src = None
+        if isinstance(s, ast.If):
+            if when != "before":
+                return
+            src = "if " + ast.unparse(s.test)
         for i, (w, pat, code) in enumerate(hooks):
             if w != when:
                 continue
